@@ -1,15 +1,15 @@
 """C02 The hash equals the value defined by the written specification."""
 import astq
-from rules import aes, decode, driver, dsinit, spec
+from rules import aes, argon, blake, decode, driver, dsinit, spec, sshash
 
 LEVEL = 'other'
 TECHNIQUE = 'constant-table and step-sequence agreement between doc/specs.md (parsed tables, hex blocks, lane diagrams) and the resolved AST / assembled objects; FIPS-197 decomposition for the AES round'
 CLAIM = ('Decides statically every statement doc/specs.md makes in machine-readable form against the source: configuration defaults, scratchpad masks, the VM-programming table and bit fields, '
          'register-file / program / instruction layouts, the 13 loop steps of 4.6.2, the chapter-2 driver sequence, instruction frequencies and operand rules, branch construction, AES keys / states / lane patterns and the AES '
-         'round itself, BlakeGenerator, Argon2 parameters, dataset item constants and step order. What the specification states only in prose about computed values (arithmetic results, '
+         'round itself, BlakeGenerator, Argon2 parameters, dataset item constants and step order; plus the structural rules of the delegated primitives (Blake2b constants, compression skeleton and streaming counter, Argon2 fill skeleton / indexing / H0 / H-prime, SuperscalarHash tables and executor) and the rule that a cache is re-initialised whenever the key differs. What the specification states only in prose about computed values (arithmetic results, '
          'SuperscalarHash generation for a given key) is numeric and not claimed.')
 LEVEL_NOTE = 'Trusted: the specification text as oracle; clang AST; numeric behaviour of the arithmetic executors, Blake2b compression and Argon2 (their constants are checked in C10/C11).'
-EXPLANATION = 'SPEC-CONFIG, SPEC-MASKS, SPEC-VMPROG, SPEC-REGFILE, SPEC-LOOP, DRV-SEQ, SPEC-FREQ/DEC-OPERANDS/MEM-LEVEL/CBR-BITS, SPEC-AESKEYS/PATTERN + AES-ROUND, SPEC-BLAKEGEN, SPEC-ARGON, SPEC-DSCONST/DS-ITEM.'
+EXPLANATION = 'B2-CONST/COMPRESS/UPDATE, A2-SKELETON/XOR/INDEX/H0/HPRIME, SPEC-SSTABLES, SS-EXEC, BIND-KEY (shared with C09-C11, C03), SPEC-CONFIG, SPEC-MASKS, SPEC-VMPROG, SPEC-REGFILE, SPEC-LOOP, DRV-SEQ, SPEC-FREQ/DEC-OPERANDS/MEM-LEVEL/CBR-BITS, SPEC-AESKEYS/PATTERN + AES-ROUND, SPEC-BLAKEGEN, SPEC-ARGON, SPEC-DSCONST/DS-ITEM.'
 
 
 def run(ctx, R):
@@ -29,3 +29,14 @@ def run(ctx, R):
     spec.rule_blakegen(ctx, R, F)
     spec.rule_argon(ctx, R, F)
     dsinit.rule_dsconst(ctx, R, F)
+    # the primitives the specification delegates to other documents, and the key binding the hash depends on
+    blake.rule_const(ctx, R, F)
+    blake.rule_compress(ctx, R, F)
+    blake.rule_update_final(ctx, R, F)
+    argon.rule_skeleton(ctx, R, F)
+    argon.rule_index(ctx, R, F)
+    argon.rule_h0(ctx, R, F)
+    argon.rule_long(ctx, R, F)
+    sshash.rule_tables(ctx, R, F)
+    sshash.rule_exec(ctx, R, F)
+    driver.rule_bind_key(ctx, R, F)
